@@ -10,9 +10,42 @@ impl<'a> Unpacker<'a> {
 }
 #[verifier::external_body]
 fn vx_iter_as_slice<'a>(it: &core::slice::Iter<'a, u8>) -> (r: &'a [u8])
-    ensures r@.len() == it.remaining().len(), forall|i: int| 0 <= i < r@.len() ==> r@[i] == *it.remaining()[i],
+    ensures r@.len() == it.remaining().len(), r@.len() <= usize::MAX, forall|i: int| 0 <= i < r@.len() ==> r@[i] == *it.remaining()[i],
 { it.as_slice() }
 #[verifier::external_body]
 fn vx_iter_len(it: &core::slice::Iter<u8>) -> (r: usize) ensures r == it.remaining().len(), { it.len() }
 #[verifier::external_body]
 fn vx_drain(it: &mut core::slice::Iter<u8>) ensures (*final(it)).remaining().len() == 0, { let _ = it.by_ref().count(); }
+// `iter.by_ref().cloned().enumerate()` stepped by hand: one `next()` of the underlying slice iterator plus the running index
+// (verified here; stands for the semantics of core's Cloned/Enumerate adapters, which this Verus cannot take)
+fn vx_enum_next<'a>(iter: &mut core::slice::Iter<'a, u8>, n: &mut usize) -> (r: Option<(usize, u8)>)
+    requires *old(n) + (*old(iter)).remaining().len() <= usize::MAX,
+    ensures
+        match r {
+            Some((i, b)) => i == *old(n) && *final(n) == i + 1 && (*old(iter)).remaining().len() > 0
+                && b == *(*old(iter)).remaining()[0] && (*final(iter)).remaining() == (*old(iter)).remaining().skip(1),
+            None => (*old(iter)).remaining().len() == 0 && (*final(iter)).remaining().len() == 0 && *final(n) == *old(n),
+        },
+{
+    match iter.next() {
+        Some(b) => { let i = *n; *n = *n + 1; Some((i, *b)) }
+        None => None,
+    }
+}
+// the bytes an iterator over bytes has not yet yielded
+#[verifier::prophetic]
+spec fn it_rest(it: &core::slice::Iter<u8>) -> Seq<u8> { Seq::new(it.remaining().len(), |i: int| *it.remaining()[i]) }
+// position of the first NUL (s.len() if there is none)
+spec fn first_nul(s: Seq<u8>) -> int decreases s.len() {
+    if s.len() == 0 { 0 } else if s[0] == 0 { 0 } else { 1 + first_nul(s.skip(1)) }
+}
+proof fn lemma_first_nul(s: Seq<u8>, p: int)
+    requires 0 <= p <= s.len(), forall|j: int| 0 <= j < p ==> s[j] != 0, p == s.len() || s[p] == 0,
+    ensures first_nul(s) == p,
+    decreases s.len(),
+{
+    if s.len() == 0 || s[0] == 0 { } else {
+        assert forall|j: int| 0 <= j < p - 1 implies s.skip(1)[j] != 0 by { assert(s.skip(1)[j] == s[j + 1]); }
+        lemma_first_nul(s.skip(1), p - 1);
+    }
+}
